@@ -153,6 +153,26 @@ class SumAgg:
     return (state[0], state[1])
 
 
+class RowSum:
+  """Exact row-wise aggregate: (sum of all given scalar inputs, number of rows)."""
+
+  def create_state(self):
+    return [0, 0]
+
+  def update_state(self, state, *vals):
+    return [state[0] + sum(int(v) for v in vals), state[1] + 1]
+
+  def merge_states(self, states):
+    out = [0, 0]
+    for s in states:
+      out[0] += s[0]
+      out[1] += s[1]
+    return out
+
+  def get_result(self, state):
+    return (state[0], state[1])
+
+
 class Counting:
   """Stateful callable for lazy-expression tests: counts constructions and calls."""
   constructed = 0
